@@ -1025,6 +1025,11 @@ class Consumer(object):
         proc_block_end = proc_block_size
 
         while proc_block_begin < len(messages) and not self._shuttingdown:
+            if self._stopping or self._start_d is None:
+                # stop() cancelled the previous block's processor call (we resume from
+                # inside stop()): the blocks after it must not be handed out, or the
+                # last processed offset would pass the cancelled messages.
+                break
             msgs_to_proc = messages[proc_block_begin:proc_block_end]
             # Call our processor callable and handle the possibility it returned
             # a deferred...
